@@ -36,6 +36,7 @@ import (
 
 	"verif/harness/internal/engine"
 	"verif/harness/internal/ev"
+	"verif/harness/internal/loglevel"
 )
 
 // ---- in-process stand-in for HAProxy's admin/health endpoints ---------------------------------
@@ -829,6 +830,9 @@ func TestConfigurationUpdates(t *testing.T) {
 	r := ev.New(t, "C08")
 	rapid.Check(t, func(t *rapid.T) {
 		c := genCase().Draw(t, "case")
+		level := loglevel.Gen().Draw(t, "log level")
+		r.Class("log level " + level)
+		defer loglevel.Set(level)()
 		r.Case()
 		nt, obs, err := runCase(r, c)
 		if err != nil {
